@@ -711,6 +711,7 @@ func c16Engine(env *Env, rep *Report) {
 		rep.Count("engine_isolation_shared_option")
 	}
 	propertyPerRequest(env, rep, "C16-engine", "C16-isolation")
+	manyWritersAtOnce(env, rep, "C16-engine", 6)
 	// values stored and read on a boundary event's exception flow (the token that waits at the boundary event is made
 	// by the activity's harness): a task result stored there, a condition reading it, a data object
 	for _, intr := range []bool{true, false} {
@@ -902,6 +903,83 @@ func propertyPerRequest(env *Env, rep *Report, keyEngine, keyIsolation string) {
 		in.WaitCease(tmoStep)
 		if len(handed) == 2 && (handed[0] != "first" || handed[1] != "second") {
 			rep.Violate(keyEngine, cs, fmt.Sprintf("the task was handed property c = %v over the two rounds, expected [first second]", handed))
+		}
+		in.Close()
+	}
+}
+
+// manyWritersAtOnce: a parallel fork into 12 tasks, each declaring a result of its own; all 12 requests are answered
+// at the same moment (goroutines released together), the instance carrying many other variables: every result is
+// stored — none is lost to another token's write. Shared by C16 (what is stored reads back) and C01 (the instance
+// ends with the variables the answered tasks wrote).
+func manyWritersAtOnce(env *Env, rep *Report, key string, rounds int) {
+	const n = 12
+	p := &Prog{}
+	p.Node("start", "start")
+	p.Node("par", "F")
+	p.Node("par", "J")
+	p.Node("end", "end")
+	p.Flow("start", "F", "")
+	for i := 0; i < n; i++ {
+		t := p.Node("task", fmt.Sprintf("W%d", i))
+		t.Results = []string{fmt.Sprintf("w%d", i)}
+		p.Flow("F", t.ID, "")
+		p.Flow(t.ID, "J", "")
+	}
+	p.Flow("J", "end", "")
+	xmlText := p.XML("")
+	for r := 0; r < rounds && !rep.Saturated(); r++ {
+		cs := fmt.Sprintf("%d tasks in parallel branches answered at the same moment, each writing its own variable, 800 other variables (round %d)", n, r)
+		env.Current(cs)
+		defs, err := ParseDefsShared(xmlText)
+		must(err)
+		vars := map[string]any{}
+		for i := 0; i < 800; i++ {
+			vars[fmt.Sprintf("x%d", i)] = i
+		}
+		in, err := StartInst(defs, InstOpt{Vars: vars, Buf: 256})
+		must(err)
+		rep.Evaluations++
+		rep.Nontrivial++
+		rep.Count("many_writers_at_once")
+		var tasks []bpmn.TaskTrace
+		for i := 0; i < n; i++ {
+			t := in.WaitTask(fmt.Sprintf("W%d", i), tmoStep)
+			if t == nil {
+				break
+			}
+			tasks = append(tasks, t)
+		}
+		if len(tasks) != n {
+			rep.Violate(key, cs, fmt.Sprintf("only %d of %d tasks were requested; log: %s", len(tasks), n, logString(in.Log())))
+			in.Close()
+			continue
+		}
+		gate := make(chan struct{})
+		var wg sync.WaitGroup
+		for i, t := range tasks {
+			wg.Add(1)
+			go func(i int, t bpmn.TaskTrace) {
+				defer wg.Done()
+				<-gate
+				t.Do(bpmn.DoWithResults(map[string]any{fmt.Sprintf("w%d", i): true}))
+			}(i, t)
+		}
+		close(gate)
+		wg.Wait()
+		if !in.WaitCease(tmoStep) {
+			rep.Violate(key, cs, "all tasks answered, the instance did not complete; log: "+logString(in.Log()))
+			in.Close()
+			continue
+		}
+		var lost []string
+		for i := 0; i < n; i++ {
+			if v, ok := in.P.Locator().GetVariable(fmt.Sprintf("w%d", i)); !ok || v != true {
+				lost = append(lost, fmt.Sprintf("w%d", i))
+			}
+		}
+		if len(lost) > 0 {
+			rep.Violate(key, cs, fmt.Sprintf("the results %v of answered tasks are not among the instance's variables at the end", lost))
 		}
 		in.Close()
 	}
